@@ -222,3 +222,14 @@ Definition valid_fill (i : N) (f : fill) : Prop := f_inst f = i /\ 0 < f_qty f.
 (** literals *)
 Definition qcz (z : Z) : Qc := Q2Qc (inject_Z z).
 Definition qcq (q : Q) : Qc := Q2Qc q.
+
+(* ---- persist / restore ---------------------------------------------------------------------------- *)
+
+(** a history in which the state may be serialised and restored between fills: restoring gives
+    back the same state, so it is a no-op of the model *)
+Inductive pop := PFill (f : fill) | PRestore.
+Definition pstep_r (s : pstate) (o : pop) : pstate :=
+  match o with PFill f => pstep s f | PRestore => s end.
+Definition prun_r (ops : list pop) : pstate := fold_left pstep_r ops (None, []).
+Definition fills_of_ops (ops : list pop) : list fill :=
+  flat_map (fun o => match o with PFill f => [f] | PRestore => [] end)%list ops.
